@@ -254,6 +254,35 @@ theorem clone_root_canonical {n : Nat} (hn : 4 ≤ n) {base : Trie} {S : KMap} {
   rw [(parallel_eq_sequential hn h hs ok (List.range 8) (fun i => List.mem_range)).2.2]
   exact (commit_total (by omega) h hs ok.valid).1
 
+/-! ### `Store.Root()` -/
+
+/-- **Tie to the source.** The argument of the `CommitParallel` call in `(*Store).Root` is `s.ss.txn.ops` (read off
+store/store.go by `facts` on every run): the tree is handed exactly the pending state operations — no operation is
+dropped or rewritten on the way (e.g. a delete of a key whose stored value is empty: such a key is PRESENT, its leaf
+commits to `hash("")`, and deleting it must remove the leaf). -/
+theorem root_commits_exactly_the_pending_ops : Gen.SmtFacts.rootCommitsPendingOpsUnfiltered = true := by decide
+
+/-- **The store's root is the canonical tree of (committed state updated by ALL pending operations)** — whatever
+selection `keep` a filtering `Root()` would apply; depends on `root_commits_exactly_the_pending_ops`. -/
+theorem store_root_canonical {n : Nat} (hn : 4 ≤ n) {base : Trie} {S : KMap} {pending : List Op} (keep : Op → Bool)
+    (h : base.Rep n S) (hs : S.HasSentinels n) (ok : ParOK n S pending) :
+    ∃ t, storeRootTree n none base (handedOps Gen.SmtFacts.rootCommitsPendingOpsUnfiltered keep pending) = .ok t
+      ∧ t.Rep n (S.run (sortOps pending)) := by
+  have hh : handedOps Gen.SmtFacts.rootCommitsPendingOpsUnfiltered keep pending = pending := by
+    simp [handedOps, root_commits_exactly_the_pending_ops]
+  rw [hh]
+  exact clone_root_canonical hn none h hs ok |>.imp fun t ht => by
+    simpa [copyCached] using ht
+
+/-- a `Root()` that drops the delete of an empty-valued key keeps the key: "joined then left" differs from "never
+joined" (2-bit keys; the committed state holds `10 ↦ hash("")`, the block deletes it) -/
+example :
+    let del : Op := .del [true, false]
+    let kvs : List (Key × Bytes) := [([false, false], [1]), ([true, false], []), ([true, true], [3])]
+    (canon kvs).map (fun t => t.run (handedOps false (fun o => o != del) [del]))
+      ≠ (canon kvs).map (fun t => t.run [del]) := by
+  decide
+
 /-- a clone that inherited the source's cached tree would return it unchanged, whatever it is asked to write -/
 example (n : Nat) (t base : Trie) (pending : List Op) :
     storeRootTree n (copyCached true (some t)) base pending = .ok t := rfl
